@@ -109,22 +109,45 @@ def cfgOf (h : Hdr.Hist) : Gen.Hdr.Histogram :=
 
 theorem toNat_add (a b : Nat) : Int.toNat ((a : Int) + (b : Int)) = a + b := by omega
 
-theorem getSubBucketIdx_tie (h : Hdr.Hist) (v b : Nat) :
+/-! ### 32-bit arithmetic: `Go.w32` is the identity on what fits an `int32` -/
+
+theorem w32_of_range (x : Int) (h1 : -2 ^ 31 ≤ x) (h2 : x < 2 ^ 31) : Gen.Go.w32 x = x := by
+  unfold Gen.Go.w32
+  rw [BitVec.toInt_ofInt]
+  apply Int.bmod_eq_of_le <;> omega
+
+theorem w32_nat (n : Nat) (h : n < 2 ^ 31) : Gen.Go.w32 (n : Int) = n := w32_of_range _ (by omega) (by omega)
+
+/-- the translated `getSubBucketIdx` narrows to `int32`: it is the model's as long as the shifted value fits 31 bits -/
+theorem getSubBucketIdx_tie (h : Hdr.Hist) (v b : Nat) (hlt : v >>> (b + h.unitMag) < 2 ^ 31) :
     Gen.Hdr.getSubBucketIdx (cfgOf h) v b = (Hdr.getSubBucketIdx h v b : Int) := by
   simp only [Gen.Hdr.getSubBucketIdx, Hdr.getSubBucketIdx, cfgOf, toNat_add, cast_shr]
+  exact w32_nat _ hlt
 
 theorem valueFromIndex_tie (h : Hdr.Hist) (b s : Nat) :
     Gen.Hdr.valueFromIndex (cfgOf h) b s = (Hdr.valueFromIndex h b s : Int) := by
   simp only [Gen.Hdr.valueFromIndex, Hdr.valueFromIndex, cfgOf, toNat_add, cast_shl]
 
-theorem countsIndex_tie (h : Hdr.Hist) (b s : Nat) :
+/-- `countsIndex` is all `int32` arithmetic: exact for bucket indexes up to 64, sub-bucket indexes below 2^30 and at
+most 2^21 sub-buckets (five significant figures need 2^18) -/
+theorem countsIndex_tie (h : Hdr.Hist) (b s : Nat) (hb : b ≤ 64) (hs : s < 2 ^ 30) (hh : h.halfMag ≤ 20)
+    (hc : h.halfCount = 2 ^ h.halfMag) :
     Gen.Hdr.countsIndex (cfgOf h) b s = Hdr.countsIndex h b s := by
+  have hp : 2 ^ h.halfMag ≤ 2 ^ 20 := Nat.pow_le_pow_right (by omega) hh
+  have hmul : (b + 1) * 2 ^ h.halfMag ≤ 65 * 2 ^ 20 := Nat.mul_le_mul (by omega) hp
+  have hsh : (b + 1) <<< h.halfMag = (b + 1) * 2 ^ h.halfMag := Nat.shiftLeft_eq _ _
   simp only [Gen.Hdr.countsIndex, Hdr.countsIndex, cfgOf, Int.toNat_natCast]
-  rw [show ((b : Int) + 1) = ((b + 1 : Nat) : Int) by omega, cast_shl]
+  rw [show ((b : Int) + 1) = ((b + 1 : Nat) : Int) by omega, w32_nat (b + 1) (by omega), cast_shl,
+    w32_nat ((b + 1) <<< h.halfMag) (by rw [hsh]; omega), hc]
+  have h1 : Gen.Go.w32 ((s : Int) - ((2 ^ h.halfMag : Nat) : Int)) = (s : Int) - ((2 ^ h.halfMag : Nat) : Int) :=
+    w32_of_range _ (by omega) (by omega)
+  rw [h1]
+  exact w32_of_range _ (by rw [hsh]; omega) (by rw [hsh]; omega)
 
-theorem getCountAtIndex_tie (h : Hdr.Hist) (b s : Nat) :
+theorem getCountAtIndex_tie (h : Hdr.Hist) (b s : Nat) (hb : b ≤ 64) (hs : s < 2 ^ 30) (hh : h.halfMag ≤ 20)
+    (hc : h.halfCount = 2 ^ h.halfMag) :
     Gen.Hdr.getCountAtIndex (cfgOf h) b s = Hdr.getCountAt h b s := by
-  simp only [Gen.Hdr.getCountAtIndex, Hdr.getCountAt, Gen.Go.index, countsIndex_tie]
+  simp only [Gen.Hdr.getCountAtIndex, Hdr.getCountAt, Gen.Go.index, countsIndex_tie h b s hb hs hh hc]
   rfl
 
 section wf
@@ -138,56 +161,96 @@ theorem mask_lt : h.mask < 2 ^ 63 := by
   have hbp := wf.bucket_pos
   exact Nat.lt_of_lt_of_le this (Nat.pow_le_pow_right (by omega) (by omega))
 
-theorem getBucketIndex_tie (v : Nat) (hv : v < 2 ^ 63) :
-    Gen.Hdr.getBucketIndex (cfgOf h) v = (Hdr.getBucketIndex h v : Int) := by
+/-- the bit length the bucket index is computed from: between the mask's and 64 -/
+theorem bitLen_bounds (v : Nat) (hv : v < 2 ^ 63) :
+    h.unitMag + (h.halfMag + 1) ≤ Hdr.bitLen (v ||| h.mask) ∧ Hdr.bitLen (v ||| h.mask) ≤ 64 ∧
+    Hdr.blen v ≤ Hdr.bitLen (v ||| h.mask) := by
   have hm := mask_lt wf
   have hor : v ||| h.mask < 2 ^ 64 :=
     Nat.lt_of_lt_of_le (Nat.or_lt_two_pow hv hm) (Nat.pow_le_pow_right (by omega) (by omega))
-  have hge : h.unitMag + (h.halfMag + 1) ≤ Hdr.bitLen (v ||| h.mask) := by
-    rw [Hdr.bitLen_eq_blen _ hor, Hdr.blen_or, Hdr.blen_mask wf]; omega
+  rw [Hdr.bitLen_eq_blen _ hor]
+  refine ⟨by rw [Hdr.blen_or, Hdr.blen_mask wf]; omega, Hdr.blen_le_of_lt hor, by rw [Hdr.blen_or]; omega⟩
+
+theorem getBucketIndex_tie (v : Nat) (hv : v < 2 ^ 63) (hh : h.halfMag ≤ 20) :
+    Gen.Hdr.getBucketIndex (cfgOf h) v = (Hdr.getBucketIndex h v : Int) := by
+  have hm := mask_lt wf
+  obtain ⟨hge, hle, _⟩ := bitLen_bounds wf v hv
   simp only [Gen.Hdr.getBucketIndex, Hdr.getBucketIndex, cfgOf, or_tie v h.mask hv hm, bitLen_tie]
+  rw [show ((h.halfMag : Int) + 1) = ((h.halfMag + 1 : Nat) : Int) by omega, w32_nat (h.halfMag + 1) (by omega)]
+  rw [w32_of_range _ (by omega) (by omega)]
   omega
 
-theorem countsIndexFor_tie (v : Nat) (hv : v < 2 ^ 63) :
+theorem getBucketIndex_le (v : Nat) (hv : v < 2 ^ 63) : Hdr.getBucketIndex h v ≤ 64 := by
+  obtain ⟨_, hle, _⟩ := bitLen_bounds wf v hv
+  unfold Hdr.getBucketIndex; omega
+
+/-- the sub-bucket index of a value in its own bucket is below the sub-bucket count, for every value below 2^63 -/
+theorem subBucket_lt (v : Nat) (hv : v < 2 ^ 63) :
+    v >>> (Hdr.getBucketIndex h v + h.unitMag) < 2 ^ (h.halfMag + 1) := by
+  obtain ⟨hge, _, hbl⟩ := bitLen_bounds wf v hv
+  have hlt := Hdr.lt_two_pow_blen v
+  have hsum : Hdr.getBucketIndex h v + h.unitMag + (h.halfMag + 1) = Hdr.bitLen (v ||| h.mask) := by
+    unfold Hdr.getBucketIndex; omega
+  rw [Nat.shiftRight_eq_div_pow, Nat.div_lt_iff_lt_mul (Nat.two_pow_pos _), ← Nat.pow_add]
+  have : h.halfMag + 1 + (Hdr.getBucketIndex h v + h.unitMag) = Hdr.bitLen (v ||| h.mask) := by omega
+  rw [this]
+  exact Nat.lt_of_lt_of_le hlt (Nat.pow_le_pow_right (by omega) hbl)
+
+theorem subBucket_lt30 (v : Nat) (hv : v < 2 ^ 63) (hh : h.halfMag ≤ 20) :
+    v >>> (Hdr.getBucketIndex h v + h.unitMag) < 2 ^ 30 :=
+  Nat.lt_of_lt_of_le (subBucket_lt wf v hv) (Nat.pow_le_pow_right (by omega) (by omega))
+
+theorem countsIndexFor_tie (v : Nat) (hv : v < 2 ^ 63) (hh : h.halfMag ≤ 20) :
     Gen.Hdr.countsIndexFor (cfgOf h) v = Hdr.countsIndexFor h v := by
-  simp only [Gen.Hdr.countsIndexFor, Hdr.countsIndexFor, getBucketIndex_tie wf v hv, getSubBucketIdx_tie, countsIndex_tie]
+  have hs := subBucket_lt30 wf v hv hh
+  have hs31 : v >>> (Hdr.getBucketIndex h v + h.unitMag) < 2 ^ 31 := by omega
+  simp only [Gen.Hdr.countsIndexFor, Hdr.countsIndexFor, getBucketIndex_tie wf v hv hh,
+    getSubBucketIdx_tie h v (Hdr.getBucketIndex h v) hs31]
+  exact countsIndex_tie h _ _ (getBucketIndex_le wf v hv) hs hh wf.halfCount_eq
 
-theorem lowestEquivalentValue_tie (v : Nat) (hv : v < 2 ^ 63) :
+theorem lowestEquivalentValue_tie (v : Nat) (hv : v < 2 ^ 63) (hh : h.halfMag ≤ 20) :
     Gen.Hdr.lowestEquivalentValue (cfgOf h) v = (Hdr.lowestEquiv h v : Int) := by
-  simp only [Gen.Hdr.lowestEquivalentValue, Hdr.lowestEquiv, getBucketIndex_tie wf v hv, getSubBucketIdx_tie, valueFromIndex_tie]
+  have hs := subBucket_lt30 wf v hv hh
+  have hs31 : v >>> (Hdr.getBucketIndex h v + h.unitMag) < 2 ^ 31 := by omega
+  simp only [Gen.Hdr.lowestEquivalentValue, Hdr.lowestEquiv, getBucketIndex_tie wf v hv hh,
+    getSubBucketIdx_tie h v (Hdr.getBucketIndex h v) hs31, valueFromIndex_tie]
 
-theorem sizeOfEquivalentValueRange_tie (v : Nat) (hv : v < 2 ^ 63) :
+theorem sizeOfEquivalentValueRange_tie (v : Nat) (hv : v < 2 ^ 63) (hh : h.halfMag ≤ 20) :
     Gen.Hdr.sizeOfEquivalentValueRange (cfgOf h) v = (Hdr.sizeOfRange h v : Int) := by
-  simp only [Gen.Hdr.sizeOfEquivalentValueRange, Hdr.sizeOfRange, getBucketIndex_tie wf v hv, getSubBucketIdx_tie]
+  have hs30 := subBucket_lt30 wf v hv hh
+  have hb64 := getBucketIndex_le wf v hv
+  have hs31 : v >>> (Hdr.getBucketIndex h v + h.unitMag) < 2 ^ 31 := by omega
+  simp only [Gen.Hdr.sizeOfEquivalentValueRange, Hdr.sizeOfRange, getBucketIndex_tie wf v hv hh,
+    getSubBucketIdx_tie h v (Hdr.getBucketIndex h v) hs31]
   have hc : ((Hdr.getSubBucketIdx h v (Hdr.getBucketIndex h v) : Int) ≥ (cfgOf h).subBucketCount) ↔
       (Hdr.getSubBucketIdx h v (Hdr.getBucketIndex h v) ≥ h.subCount) := by simp only [cfgOf]; omega
   simp only [hc]
   by_cases hs : Hdr.getSubBucketIdx h v (Hdr.getBucketIndex h v) ≥ h.subCount
   · simp only [hs, if_true, cfgOf]
-    rw [show (h.unitMag : Int) + ((Hdr.getBucketIndex h v : Int) + 1) = ((h.unitMag + (Hdr.getBucketIndex h v + 1) : Nat) : Int) by omega,
-      Int.toNat_natCast]
+    rw [show ((Hdr.getBucketIndex h v : Int) + 1) = ((Hdr.getBucketIndex h v + 1 : Nat) : Int) by omega,
+      w32_nat _ (by omega), toNat_add]
   · simp only [hs, if_false, cfgOf, toNat_add]
 
-theorem nextNonEquivalentValue_tie (v : Nat) (hv : v < 2 ^ 63) :
+theorem nextNonEquivalentValue_tie (v : Nat) (hv : v < 2 ^ 63) (hh : h.halfMag ≤ 20) :
     Gen.Hdr.nextNonEquivalentValue (cfgOf h) v = (Hdr.nextNonEquiv h v : Int) := by
-  simp only [Gen.Hdr.nextNonEquivalentValue, Hdr.nextNonEquiv, lowestEquivalentValue_tie wf v hv,
-    sizeOfEquivalentValueRange_tie wf v hv, Int.natCast_add]
+  simp only [Gen.Hdr.nextNonEquivalentValue, Hdr.nextNonEquiv, lowestEquivalentValue_tie wf v hv hh,
+    sizeOfEquivalentValueRange_tie wf v hv hh, Int.natCast_add]
 
 omit wf in
 theorem sizeOfRange_pos (v : Nat) : 1 ≤ Hdr.sizeOfRange h v := by
   simp only [Hdr.sizeOfRange, Nat.shiftLeft_eq, Nat.one_mul]
   exact Nat.two_pow_pos _
 
-theorem highestEquivalentValue_tie (v : Nat) (hv : v < 2 ^ 63) :
+theorem highestEquivalentValue_tie (v : Nat) (hv : v < 2 ^ 63) (hh : h.halfMag ≤ 20) :
     Gen.Hdr.highestEquivalentValue (cfgOf h) v = (Hdr.highestEquiv h v : Int) := by
   have := sizeOfRange_pos (h := h) v
-  simp only [Gen.Hdr.highestEquivalentValue, Hdr.highestEquiv, nextNonEquivalentValue_tie wf v hv, Hdr.nextNonEquiv]
+  simp only [Gen.Hdr.highestEquivalentValue, Hdr.highestEquiv, nextNonEquivalentValue_tie wf v hv hh, Hdr.nextNonEquiv]
   omega
 
-theorem medianEquivalentValue_tie (v : Nat) (hv : v < 2 ^ 63) :
+theorem medianEquivalentValue_tie (v : Nat) (hv : v < 2 ^ 63) (hh : h.halfMag ≤ 20) :
     Gen.Hdr.medianEquivalentValue (cfgOf h) v = (Hdr.medianEquiv h v : Int) := by
-  simp only [Gen.Hdr.medianEquivalentValue, Hdr.medianEquiv, lowestEquivalentValue_tie wf v hv,
-    sizeOfEquivalentValueRange_tie wf v hv, Int.natCast_add, show Int.toNat 1 = 1 from rfl, cast_shr]
+  simp only [Gen.Hdr.medianEquivalentValue, Hdr.medianEquiv, lowestEquivalentValue_tie wf v hv hh,
+    sizeOfEquivalentValueRange_tie wf v hv hh, Int.natCast_add, show Int.toNat 1 = 1 from rfl, cast_shr]
 
 end wf
 
@@ -203,10 +266,10 @@ theorem set_getD_modify (l : List Int) (n : Int) : ∀ (i : Nat), l.set i (l[i]?
     | succ j => simp [ih j]
 
 /-- hdr.go's `RecordValues`, translated, is the model's `recordValues` (error = `none`, state unchanged) -/
-theorem RecordValues_tie {h : Hdr.Hist} (wf : Hdr.WF h) (v : Nat) (hv : v < 2 ^ 63) (n : Int) :
+theorem RecordValues_tie {h : Hdr.Hist} (wf : Hdr.WF h) (v : Nat) (hv : v < 2 ^ 63) (hh : h.halfMag ≤ 20) (n : Int) :
     Gen.Hdr.RecordValues (cfgOf h) v n = (Hdr.recordValues h v n).map cfgOf := by
   have hnn : ¬ ((v : Int) < 0) := by omega
-  simp only [Gen.Hdr.RecordValues, Hdr.recordValues, countsIndexFor_tie wf v hv, hnn, if_false, Int.toNat_natCast]
+  simp only [Gen.Hdr.RecordValues, Hdr.recordValues, countsIndexFor_tie wf v hv hh, hnn, if_false, Int.toNat_natCast]
   have hl : (cfgOf h).countsLen = (h.countsLen : Int) := rfl
   rw [hl]
   by_cases hc : Hdr.countsIndexFor h v < 0 ∨ (h.countsLen : Int) ≤ Hdr.countsIndexFor h v
